@@ -95,6 +95,29 @@ CHECKS = {
             "re-serialised and compared on the fields the library models.",
             "Trusted: protobuf runtime; field types read from the generated descriptors. Unset fields may come back as defaults (counted).",
             "DESIGN.md 4/C10"),
+    "C04": ("exploration",
+            "runtime monitor: real segments+noise+coder layers driven against a Noise responder double acting as strict in-order peer; chunking enumeration, reconnect histories, yield injection (sys.monitoring) and a stable-blocked-state detector for hangs",
+            "Each case runs the library's real handshake worker thread against an independent Noise responder (XX, IK, "
+            "IK->XXfallback) fed by a separate harness network thread: the server reply is cut at every split point (step 7 "
+            "quick / 1 thorough), by 2-cuts, random k-cuts and byte by byte; delivered immediately, with jitter or only when the "
+            "client is parked; with statement-level yield injection in the noise layer/worker/consonance stream; histories "
+            "plain, cut-off-then-retry, cut-inside-reply-then-retry, reconnect-after-transport, corrupted reply (must surface "
+            "as <failure> + event, not hang). The responder checks the presented account/passive/push name/user agent and "
+            "decrypts client frames strictly in counter order; server frames glued to the reply and random traffic both ways "
+            "must arrive intact and in order; the stored profile must hold a changed server key. Interleavings are sampled.",
+            "Trusted: dissononce/consonance (with the randint shim), the responder double. Hang = stable blocked state, a bare timeout is inconclusive.",
+            "DESIGN.md 4/C04"),
+    "C11": ("exploration",
+            "runtime monitor: strict in-order decrypting peer + frame parser on the byte stream at the wire while 2-4 real threads send concurrently; yield injection via sys.monitoring, two GIL switch intervals, exactly-once id accounting",
+            "300 (quick) / 20 000 (thorough) runs: after a real handshake 2-4 sender threads enter the stack at three different "
+            "places (top of stack, a protocol layer's _sendIq, below the protocol group) and in a third of the runs the library's "
+            "own keep-alive thread runs on a fast clock with pongs answered; stanzas of 10 B..200 KiB; statement-level yield "
+            "injection in layers/__init__, noise, segments, coder, consonance stream/transport. The responder double parses "
+            "len3+payload frames and decrypts with a forward-only counter, so any torn header/payload pair or counter/wire order "
+            "inversion is a decrypt failure; every stanza id must appear exactly once. Removing the lock in YowLayer.toLower is "
+            "caught in the first runs. Interleavings are sampled; the evidence lists the distinct sender orders observed.",
+            "Trusted: dissononce cipher states of the peer. Senders start after the handshake (C04 covers the handshake thread's writes).",
+            "DESIGN.md 4/C11"),
 }
 
 NOT_BUILT = "check not built yet in this session (planned, see DESIGN.md section 4)"
